@@ -1,3 +1,4 @@
+import OV.Model.C03Frag
 import OV.Lemmas.C03Steps
 import OV.Lemmas.C03State
 /-!
@@ -277,13 +278,6 @@ theorem inheritInfo_fold (st2 st3 : St) (o fv : Name) (c : CInfo)
 /-- A node of the generic-folding fragment: no bodies, not a `Constant` node, no partial evaluator, no reference attribute. -/
 def Plain (n : Node) : Prop :=
   n.subs = [] ∧ n.isOp "Constant" = false ∧ (∀ v, lookupEvaluator n v = none) ∧ hasRefAttr n = false
-
-def mentionsTop (n : Node) (x : Name) : Bool := n.inputs.contains (some x) || n.outputs.contains x
-
-/-- No node mentions an output of a later node (single assignment + definition before use, one level). -/
-def orderOK : List Node → Bool
-  | [] => true
-  | n :: rest => rest.all (fun m => m.outputs.all (fun o => !mentionsTop n o)) && orderOK rest
 
 /-- The arguments the state attributes to a node whose inputs are all known constants. -/
 def constArgs (sem : Sem V) (st : St) : List (Option Name) → List (Option V)
